@@ -692,3 +692,80 @@ def conv_component(prog, e):
     if not any(t.key == g.key for t in prog.callee_fns(x.a.a)):
         return None, None
     return roles.get(str(x.b).split(".")[-1]), x.a.a
+
+
+def accepts_min_len(rep, prog, f0, param, minimum, rule, inst):
+    """every Ok-capable exit of f0 (private helpers folded in) is dominated by edges that bound the
+    length of byte parameter `param` from below by exactly `minimum` and not from above: the parser
+    accepts every encoding the writer can produce, including the one of the empty payload"""
+    from ..inline import inline
+    from ..expr import result_kind_of_ret
+    from ..guards import edge_facts, facts_at, bounds
+    f = inline(prog, f0)
+    ef = edge_facts(f, view_info)
+    n = 0
+    for b, kind, e in result_kind_of_ret(f):
+        if kind == "err" or b not in f.reachable(0):
+            continue
+        n += 1
+        lo, hi = bounds(("len", param), facts_at(f, b, ef))
+        rep.ob(rule, "%s|accepts len >= %d" % (inst, minimum), lo == minimum and hi is None,
+               "Ok-capable exit at %s requires %s <= len%s (the shortest valid encoding has %d bytes)" % (
+                   f.loc(b), lo, "" if hi is None else " <= %s" % hi, minimum), loc=f.loc(b))
+    return n
+
+
+WIPE_CALLS = ("zeroize::Zeroize::zeroize",)
+
+
+def read_after_wipe(rep, prog, prefixes, rule="WIPE-ORDER", tag=""):
+    """A local buffer that has been wiped (`x.zeroize()`) holds zeros: handing it on afterwards - as the
+    source of a copy, as a shared-reference argument, as the returned value - uses the zeros instead of
+    the value (`key.zeroize(); out.copy_from_slice(&key)`).  For every wipe of a local buffer in the
+    given modules: no read of that buffer is reachable from the wipe unless the buffer is written again
+    first (passed by `&mut`, assigned).  Returns the number of wipe sites checked."""
+    n = 0
+    for f in prog.fns:
+        p = f.path.lstrip("<")
+        if not p.startswith(tuple(prefixes)):
+            continue
+        for z in f.calls():
+            if (z.path not in WIPE_CALLS and z.rpath not in WIPE_CALLS) or not z.args or f.blocks[z.bb]["cleanup"]:
+                continue
+            ls = list(operand_locals(z.args[0]))
+            if not ls:
+                continue
+            root, narrowed = view_info(f, ls[0])
+            if root is None or narrowed or 1 <= root <= f.argc:
+                continue        # wiping (part of) a caller's buffer: the caller's business
+            n += 1
+            after = f.reachable_from_after(z.bb)
+            writes, reads = [], []
+            for c in f.calls():
+                if c.bb not in after or c.bb == z.bb or f.blocks[c.bb]["cleanup"]:
+                    continue
+                for i, a in enumerate(c.args):
+                    la = list(operand_locals(a))
+                    if not la or view_info(f, la[0])[0] != root:
+                        continue
+                    ty = f.locals[la[0]]["t"]
+                    if c.path in WIPE_CALLS or c.rpath in WIPE_CALLS or c.name in ("drop", "len", "is_empty", "as_ptr"):
+                        continue
+                    if ty.startswith("&mut") and not (c.name in ("copy_from_slice", "clone_from_slice") and i == 1):
+                        writes.append(c.bb)
+                    else:
+                        reads.append(c)
+            for b_, i_, st in f.assigns():
+                if b_ in after and st["place"]["l"] == root and not st["place"]["p"] and b_ != z.bb:
+                    writes.append(b_)
+            ret_reads = root in f.backward_slice([0]) and f.locals[0]["t"] not in ("()",)
+            bad = [c for c in reads if c.bb in f.reachable_from_after(z.bb, cut_blocks=writes)]
+            rets = [b for b in range(f.n) if f.blocks[b]["t"]["k"] == "return"]
+            bad_ret = ret_reads and any(b in f.reachable_from_after(z.bb, cut_blocks=writes) for b in rets) and \
+                view_info(f, 0)[0] == root
+            rep.ob(rule, "%s|`%s` not read after its wipe%s" % (f.path, f.local_name(root), tag), not bad and not bad_ret,
+                   "no use of the wiped buffer is reachable from the wipe" if not bad and not bad_ret else
+                   "`%s` is wiped at %s and then %s: the zeros are used instead of the value" % (
+                       f.local_name(root), z.loc(), ("read by %s at %s" % (bad[0].name, bad[0].loc())) if bad else "returned"),
+                   loc=bad[0].loc() if bad else z.loc())
+    return n
